@@ -690,7 +690,9 @@ class DiskNet(Network):
 
     def add_pairs(self):
         """ Generate contacts """
-        p1, p2 = np.triu_indices(n=len(self.x), k=1)
+        auids = self.sim.people.auids
+        p1, p2 = np.triu_indices(n=len(auids), k=1)
+        p1, p2 = auids[p1], auids[p2] # Convert positions among active agents to UIDs
         d12_sq = (self.x.raw[p2]-self.x.raw[p1])**2 + (self.y.raw[p2]-self.y.raw[p1])**2
         edge = d12_sq < self.pars.r**2
 
